@@ -99,32 +99,41 @@ pub fn run(outdir: &Path, tier: &str, seed: u64, shards: usize, _replay: Option<
     qfields.push(FieldDef::new("id", GType::named("String")));
     sel.push(Sel::field("id"));
     plan.push(("id".into(), GType::named("String")));
-    let schema = SchemaDoc {
-        defs: vec![TypeDef::Scalar { name: "IDX".into() }, TypeDef::Object { name: "Query".into(), implements: vec![], fields: qfields }],
-        schema_block: None,
-    };
+    let base_defs = vec![TypeDef::Scalar { name: "IDX".into() }, TypeDef::Object { name: "Query".into(), implements: vec![], fields: qfields }];
+    let mut explicit_defs = vec![TypeDef::Scalar { name: "ID".into() }, TypeDef::Scalar { name: "String".into() }, TypeDef::Scalar { name: "Int".into() }];
+    explicit_defs.extend(base_defs.iter().cloned());
+    let schema = SchemaDoc { defs: base_defs, schema_block: None };
+    let schema_explicit = SchemaDoc { defs: explicit_defs, schema_block: None };
     let doc = QueryDoc { defs: vec![QDef::Op { kind: OpKind::Query, name: Some("Q".into()), vars: vec![], sel }] };
     let opts = Opts { operation_name: Some("Q".into()), ..Opts::default() };
-    let oc = runner::generate(&schema.render_sdl(), "graphql", &doc.render(), &opts);
-    let mods = runner::modules(&oc);
-    for (name, t) in &plan {
-        let fld = mods.as_ref().ok().and_then(|m| m.get(0)).and_then(|m| {
-            m.items.iter().find_map(|i| match i {
-                RItem::Struct { name: n, fields, .. } if n == "ResponseData" => fields.iter().find(|f| &f.ident == name).cloned(),
-                _ => None,
-            })
-        });
-        let (h, ty, dflt) = match &fld {
-            Some(f) => (coq::ostr(&f.deser_with), format!("(Some {})", f.ty.to_coq()), f.default),
-            None => ("None".into(), "None".into(), false),
-        };
-        *dist.entry(format!("attach/{}", t.name())).or_default() += 1;
-        cases.push(Case {
-            coq: format!("(CAttach {} {} {} {})", t.to_coq(), h, coq::b(dflt), ty),
-            desc: json!({"kind": "attach", "type": t.sdl(), "field": name, "helper": h, "rust_type": fld.as_ref().map(|f| f.ty.show())}),
-            key: format!("attach|{}|{}", name, t.sdl()),
-            nontrivial: t.name() == "ID",
-        });
+    let json_builtin = JsonVariant { data_wrapped: true, builtin_scalars: 1, meta_types: 2, is_one_of: false };
+    for (fmt, ext, text) in [
+        ("sdl", "graphql", schema.render_sdl()),
+        ("sdl with explicit `scalar ID`", "graphql", schema_explicit.render_sdl()),
+        ("json", "json", schema.render_json(&JsonVariant::plain())),
+        ("json listing built-in scalars", "json", schema.render_json(&json_builtin)),
+    ] {
+        let oc = runner::generate(&text, ext, &doc.render(), &opts);
+        let mods = runner::modules(&oc);
+        for (name, t) in &plan {
+            let fld = mods.as_ref().ok().and_then(|m| m.get(0)).and_then(|m| {
+                m.items.iter().find_map(|i| match i {
+                    RItem::Struct { name: n, fields, .. } if n == "ResponseData" => fields.iter().find(|f| &f.ident == name).cloned(),
+                    _ => None,
+                })
+            });
+            let (h, ty, dflt) = match &fld {
+                Some(f) => (coq::ostr(&f.deser_with), format!("(Some {})", f.ty.to_coq()), f.default),
+                None => ("None".into(), "None".into(), false),
+            };
+            *dist.entry(format!("attach/{}/{}", fmt, t.name())).or_default() += 1;
+            cases.push(Case {
+                coq: format!("(CAttach {} {} {} {})", t.to_coq(), h, coq::b(dflt), ty),
+                desc: json!({"kind": "attach", "schema_format": fmt, "type": t.sdl(), "field": name, "helper": h, "rust_type": fld.as_ref().map(|f| f.ty.show())}),
+                key: format!("attach|{}|{}|{}", fmt, name, t.sdl()),
+                nontrivial: t.name() == "ID",
+            });
+        }
     }
 
     // ---- (c) compiled: ID at plain / flattened-fragment / variant positions
